@@ -9,7 +9,7 @@
                                   hashable rep q into an empty dictionary (KeyLaws checked for every q);
      ("hist", pool, k1, k2, k3)   a dictionary history over a pool of keys: insert k1 -> 1; insert k2 -> 2; remove k3;
                                   then the length and the lookup of every key of the pool.
-   Tier selects the number types of the universe ("quick": 8 of them, "thorough": all). *)
+   Tier selects the number types of the universe ("quick": 10 integer and 2 fixed-point types, "thorough": all 20 + 4). *)
 EXTENDS EqHash, Json
 CONSTANTS Tier
 VARIABLES st
@@ -39,8 +39,8 @@ IsSigned(t) == \E i \in 1..Len(Signed) : Signed[i] = t
 NumRepsOf(t) == <<RNum(t, 0, "dec"), RNum(t, 0, "hex"), RNum(t, 1, "dec"), RNum(t, 1, "hex"), RNum(t, 1, "conv"), RNum(t, 100, "dec"), RNum(t, 100, "conv"), RNum(t, 127, "hex")>>
                 \o (IF IsSigned(t) THEN <<RNum(t, -1, "dec"), RNum(t, -1, "conv"), RNum(t, -128, "dec"), RNum(t, -128, "hex")>> ELSE << >>)
 FixRepsOf(t) == <<RFix(t, 0, "short"), RFix(t, 0, "long"), RFix(t, 100, "short"), RFix(t, 100, "long"), RFix(t, 100, "conv"), RFix(t, 150, "short"), RFix(t, 150, "long"), RFix(t, 105, "short")>>
-                \o (IF t = "Fix64" THEN <<RFix(t, -150, "short"), RFix(t, -150, "long"), RFix(t, -100, "conv")>> ELSE << >>)
-FixTypes == <<"Fix64", "UFix64">>
+                \o (IF t \in {"Fix64", "Fix128"} THEN <<RFix(t, -150, "short"), RFix(t, -150, "long"), RFix(t, -100, "conv")>> ELSE << >>)
+FixTypes == IF Tier = "thorough" THEN <<"Fix64", "UFix64", "Fix128", "UFix128">> ELSE <<"Fix64", "UFix64">>
 
 AddrReps == <<RAddr(1, "short"), RAddr(1, "padded"), RAddr(1, "conv"), RAddr(2, "short"), RAddr(0, "short"), RAddr(0, "padded"), RAddr(256, "short"), RAddr(256, "conv")>>
 PathReps == <<RPath("public", "a", "lit"), RPath("public", "a", "ctor"), RPath("storage", "a", "lit"), RPath("storage", "a", "ctor"),
